@@ -116,14 +116,28 @@ func spawnChild(compName, path string, from, to int, limit time.Duration) childR
 	}()
 	timer := time.NewTimer(limit)
 	defer timer.Stop()
+	// a case that makes no progress for this long is reported as the one the implementation hangs on
+	const perCase = 3 * time.Minute
+	watchdog := time.NewTimer(perCase)
+	defer watchdog.Stop()
 	timedOut := false
 loop:
 	for {
 		select {
+		case <-watchdog.C:
+			timedOut = true
+			cmd.Process.Kill()
 		case l, ok := <-lines:
 			if !ok {
 				break loop
 			}
+			if !watchdog.Stop() {
+				select {
+				case <-watchdog.C:
+				default:
+				}
+			}
+			watchdog.Reset(perCase)
 			switch {
 			case strings.HasPrefix(l, "start "):
 				cur, _ = strconv.Atoi(strings.TrimPrefix(l, "start "))
